@@ -62,7 +62,7 @@ theorem decideOp_lp {c : Cfg} {L : Int → Option Int} {op : Op} {a lvl : Nat} {
       | upd n0 al =>
         simp only at hd
         split at hd
-        · simp [he] at hd
+        · simp at hd
         · next hal =>
           simp only [PC.done.injEq] at hd; subst hd
           have : al = 0 := by simpa using hal
@@ -209,7 +209,7 @@ theorem step_refines {c : Cfg} {s s' : St} {t : Tid} {ev : Ev} (hp : PathHyp c) 
           revert hr; cases decideOp c op a lvl cl <;> simp [retOf]
         have hcl : s.cell a (sl c (okey op) lvl) = cl := by
           apply Classical.byContradiction; intro hne; exact h2 hne
-        refine ⟨gopOf op, by simp [opOf, hpc, posOf], ?_⟩
+        refine ⟨gopOf op, by simp [opOf, posOf], ?_⟩
         -- the slot value: null or data (otherwise `decideOp` does not finish)
         have hna : ∀ b, s.cell a (sl c (okey op) lvl) ≠ .arr b := by
           intro b hb; rw [hcl] at hb; subst hb; simp [decideOp] at hd
@@ -230,7 +230,7 @@ theorem step_refines {c : Cfg} {s s' : St} {t : Tid} {ev : Ev} (hp : PathHyp c) 
       refine ⟨?_, by intro hr; simp [retOf] at hr⟩
       intro r hr
       simp only [upd_same, retOf, Option.some.injEq] at hr; subst hr
-      refine ⟨gopOf op, by simp [opOf, hpc, posOf], ?_⟩
+      refine ⟨gopOf op, by simp [opOf, posOf], ?_⟩
       have hna : ∀ b, s.cell a (sl c (okey op) lvl) ≠ .arr b := by intro b hb; rw [hnull] at hb; simp at hb
       have hL := look_pos_leaf hp h t op a lvl hpo hna
       rw [hnull] at hL
@@ -264,7 +264,7 @@ theorem step_refines {c : Cfg} {s s' : St} {t : Tid} {ev : Ev} (hp : PathHyp c) 
       refine ⟨?_, by intro hr; simp [retOf] at hr⟩
       intro r hr
       simp only [upd_same, retOf, Option.some.injEq] at hr; subst hr
-      refine ⟨gopOf op, by simp [opOf, hpc, posOf], ?_⟩
+      refine ⟨gopOf op, by simp [opOf, posOf], ?_⟩
       have hna : ∀ b, s.cell a (sl c (okey op) lvl) ≠ .arr b := by intro b hb; rw [hd] at hb; simp at hb
       have hL := look_pos_leaf hp h t op a lvl hpo hna
       rw [hd] at hL
@@ -287,7 +287,7 @@ theorem step_refines {c : Cfg} {s s' : St} {t : Tid} {ev : Ev} (hp : PathHyp c) 
       refine ⟨?_, by intro hr; simp [retOf] at hr⟩
       intro r hr
       simp only [upd_same, retOf, Option.some.injEq] at hr; subst hr
-      refine ⟨gopOf op, by simp [opOf, hpc, posOf], ?_⟩
+      refine ⟨gopOf op, by simp [opOf, posOf], ?_⟩
       have hna : ∀ b, s.cell a (sl c (okey op) lvl) ≠ .arr b := by intro b hb; rw [hd] at hb; simp at hb
       have hL := look_pos_leaf hp h t op a lvl hpo hna
       rw [hd] at hL
